@@ -331,6 +331,199 @@ func (c *Ctx) ruleM4(rule string) {
 	})
 	c.Check(rule, "RuleEntity.Execute#zero-to-nil", nilRet, f.Pos(), "a return of a nil interface guarded by `v == reflect.ValueOf(nil)` must exist (bare return => nil)")
 	c.Check(rule, "RuleEntity.Execute#value-to-interface", ifaceRet, f.Pos(), "the returned value must be v.Interface()")
+	// and nothing else becomes nil: a nil result can reach a return that may carry no error only along
+	// paths that took the "the body's value is the zero reflect.Value" edge of a test. Searched as a path
+	// from the entry to the return that takes no such edge and passes no assignment of v.Interface()
+	// to the result (or to a variable copied into it).
+	zeroEdges := map[edgeKey]bool{}
+	for _, b := range f.Blocks {
+		if len(b.Instrs) == 0 || len(b.Succs) != 2 {
+			continue
+		}
+		iff, isIf := b.Instrs[len(b.Instrs)-1].(*ssa.If)
+		if !isIf {
+			continue
+		}
+		cond, pol := x.Origin(iff.Cond), true
+		for {
+			u, isU := cond.(*ssa.UnOp)
+			if !isU || u.Op != token.NOT {
+				break
+			}
+			cond, pol = x.Origin(u.X), !pol
+		}
+		if bo, ok := cond.(*ssa.BinOp); ok && isReflectValue(bo.X.Type()) && (bo.Op == token.EQL || bo.Op == token.NEQ) {
+			isZeroOnTrue := (bo.Op == token.EQL) == pol
+			if isZeroOnTrue {
+				zeroEdges[edgeKey{b, 0}] = true
+			} else {
+				zeroEdges[edgeKey{b, 1}] = true
+			}
+		}
+		if call, ok := cond.(*ssa.Call); ok {
+			if nm, cc := reflectMethod(call); cc != nil && nm == "IsValid" {
+				if pol {
+					zeroEdges[edgeKey{b, 1}] = true
+				} else {
+					zeroEdges[edgeKey{b, 0}] = true
+				}
+			}
+		}
+	}
+	// the variables the result is copied from, and the assignments of a real value to any of them
+	cells := map[*ssa.Alloc]bool{}
+	var addCells func(v ssa.Value, d int)
+	addCells = func(v ssa.Value, d int) {
+		if d > 5 {
+			return
+		}
+		ld, ok := v.(*ssa.UnOp)
+		if !ok || ld.Op != token.MUL {
+			return
+		}
+		al, ok := x.ResolveAddr(ld.X).(*ssa.Alloc)
+		if !ok || cells[al] {
+			return
+		}
+		cells[al] = true
+		for _, st := range x.stores[al] {
+			addCells(st.Val, d+1)
+		}
+	}
+	realValue := func(in ssa.Instruction) bool {
+		st, ok := in.(*ssa.Store)
+		if !ok {
+			return false
+		}
+		al, ok := x.ResolveAddr(st.Addr).(*ssa.Alloc)
+		if !ok || !cells[al] {
+			return false
+		}
+		call, isCall := x.Origin(st.Val).(*ssa.Call)
+		if !isCall {
+			return false
+		}
+		nm, cc := reflectMethod(call)
+		return cc != nil && nm == "Interface"
+	}
+	bad, badPos := "", f.Pos()
+	eachInstr(f, func(in ssa.Instruction) {
+		r, ok := in.(*ssa.Return)
+		if !ok || len(r.Results) != 3 || bad != "" || r.Block() == f.Recover {
+			return
+		}
+		mayBeNil := false
+		for _, ev := range x.ValuesAt(r.Results[1], r) {
+			if ev.Outside {
+				continue
+			}
+			if ev.V == nil || isConstNil(ev.V) {
+				mayBeNil = true
+				continue
+			}
+			if call, isCall := x.Origin(ev.V).(*ssa.Call); isCall && (fnIs(call.Call.StaticCallee(), "errors", "", "New") || fnIs(call.Call.StaticCallee(), "fmt", "", "Errorf")) {
+				continue
+			}
+			if x.knownNil(ev.V, r.Block()) || !x.knownNonNil(ev.V, r.Block()) {
+				mayBeNil = true
+			}
+		}
+		if !mayBeNil {
+			return
+		}
+		// what is handed up: v.Interface() directly, or a variable
+		if call, isCall := x.Origin(r.Results[0]).(*ssa.Call); isCall {
+			if nm, cc := reflectMethod(call); cc != nil && nm == "Interface" {
+				return
+			}
+		}
+		if k, isK := x.Origin(r.Results[0]).(*ssa.Const); isK && k.IsNil() {
+			// a literal nil: the return itself must sit behind a zero edge
+			if _, reach := pathExistsEB(f, nil, func(i2 ssa.Instruction) bool { return i2 == ssa.Instruction(r) }, zeroEdges, nil); reach {
+				bad, badPos = "nil is handed up on a path that has not found the body's value to be the zero reflect.Value", r.Pos()
+			}
+			return
+		}
+		cells = map[*ssa.Alloc]bool{}
+		addCells(r.Results[0], 0)
+		if len(cells) == 0 {
+			bad, badPos = x.Describe(r.Results[0])+" is handed up instead of v.Interface()", r.Pos()
+			return
+		}
+		resLd, _ := r.Results[0].(*ssa.UnOp)
+		var resCell *ssa.Alloc
+		if resLd != nil {
+			resCell, _ = x.ResolveAddr(resLd.X).(*ssa.Alloc)
+		}
+		if resCell == nil {
+			return
+		}
+		// forward over the paths: which of the variables hold nil, and whether a zero edge was taken
+		var order []*ssa.Alloc
+		for al := range cells {
+			order = append(order, al)
+		}
+		sort.Slice(order, func(i, j int) bool {
+			return order[i].Pos() < order[j].Pos() || (order[i].Pos() == order[j].Pos() && order[i].Name() < order[j].Name())
+		})
+		pos := map[*ssa.Alloc]int{}
+		for i, al := range order {
+			pos[al] = i
+		}
+		type state struct {
+			b     *ssa.BasicBlock
+			zero  bool
+			isNil string // one byte per variable: 'n' nil, 'v' a value
+		}
+		start := state{f.Blocks[0], false, strings.Repeat("n", len(order))}
+		seen := map[state]bool{start: true}
+		work := []state{start}
+		found := false
+		for len(work) > 0 && !found {
+			st := work[len(work)-1]
+			work = work[:len(work)-1]
+			cur := []byte(st.isNil)
+			for _, i2 := range st.b.Instrs {
+				if i2 == ssa.Instruction(r) {
+					if !st.zero && cur[pos[resCell]] == 'n' {
+						found = true
+					}
+					break
+				}
+				sto, isSt := i2.(*ssa.Store)
+				if !isSt {
+					continue
+				}
+				al, isAl := x.ResolveAddr(sto.Addr).(*ssa.Alloc)
+				if !isAl || !cells[al] {
+					continue
+				}
+				switch {
+				case isConstNil(sto.Val):
+					cur[pos[al]] = 'n'
+				default:
+					cur[pos[al]] = 'v'
+					if ld, isLd := sto.Val.(*ssa.UnOp); isLd && ld.Op == token.MUL {
+						if src, isSrc := x.ResolveAddr(ld.X).(*ssa.Alloc); isSrc && cells[src] {
+							cur[pos[al]] = cur[pos[src]]
+						}
+					}
+				}
+			}
+			for k, sc := range st.b.Succs {
+				n := state{sc, st.zero || zeroEdges[edgeKey{st.b, k}], string(cur)}
+				if !seen[n] {
+					seen[n] = true
+					work = append(work, n)
+				}
+			}
+		}
+		if found {
+			bad, badPos = "nil is handed up on a path that has not found the body's value to be the zero reflect.Value", r.Pos()
+		}
+	})
+	_ = realValue
+	c.Check(rule, "RuleEntity.Execute#only-zero-to-nil", bad == "", badPos, "%s", orStr(bad, "nil only for the zero reflect.Value, v.Interface() otherwise"))
 }
 
 // ---- error list and error values ---------------------------------------------
@@ -376,6 +569,45 @@ func (m *engFn) isErrListStore(in ssa.Instruction, e *ssa.Alloc) bool {
 }
 
 func isNewError(v ssa.Value) bool {
+	// a value of the module's own error type put into the error interface: a struct value, or
+	// the address of a struct just allocated (&positionError{..}) — never a nil interface
+	if mi, isMI := v.(*ssa.MakeInterface); isMI {
+		t := mi.X.Type()
+		if !types.Implements(t, errorIface()) {
+			return false
+		}
+		if _, isPtr := t.Underlying().(*types.Pointer); !isPtr {
+			return true
+		}
+		src := mi.X
+		for i := 0; i < 4; i++ {
+			switch u := src.(type) {
+			case *ssa.Alloc:
+				return true
+			case *ssa.UnOp:
+				// a local that holds the address, assigned once
+				al, isAl := u.X.(*ssa.Alloc)
+				if u.Op != token.MUL || !isAl {
+					return false
+				}
+				var only *ssa.Store
+				n := 0
+				for _, r := range *al.Referrers() {
+					if st, isSt := r.(*ssa.Store); isSt && st.Addr == ssa.Value(al) {
+						only = st
+						n++
+					}
+				}
+				if n != 1 {
+					return false
+				}
+				src = only.Val
+			default:
+				return false
+			}
+		}
+		return false
+	}
 	call, ok := v.(*ssa.Call)
 	if !ok {
 		return false
@@ -1728,4 +1960,8 @@ func (c *Ctx) ruleOwnDc(rule string, fns []*ssa.Function) {
 			c.Check(rule, e.key(), ok && rb != nil && m.x.Origin(base) == ssa.Value(rb), e.call.Pos(), "the rule must run against the data context of the rule builder passed to this call (got %s)", m.x.Describe(e.call.Call.Args[1]))
 		}
 	}
+}
+
+func errorIface() *types.Interface {
+	return types.Universe.Lookup("error").Type().Underlying().(*types.Interface)
 }
